@@ -150,7 +150,14 @@ def run_unit(name, thorough=False, use_cache=True):
             continue
         if kind == "semantic" and not tags:
             tags = ["support"] if spec_span else ["C04"]
-            if not spec_span: clause_ids = ["safety.code"]
+            if not spec_span:
+                clause_ids = ["safety.code@" + (sorted(set(code_refs))[0] if code_refs else "?")]
+            else:
+                first = None
+                for s in d["spans"]:
+                    if 1 <= s["l0"] <= len(lmap) and lmap[s["l0"] - 1].get("kind") in ("spec", "prelude", "gen"):
+                        first = lines[s["l0"] - 1].strip(); break
+                clause_ids = ["support:" + (first or "?")[:60]]
         f = {"kind": kind, "message": d["message"], "tags": sorted(set(tags)), "clauses": sorted(set(clause_ids)),
              "code": sorted(set(code_refs))[:6], "spans": d["spans"], "rendered": d["rendered"][-3000:]}
         out["failures"].append(f)
